@@ -1,5 +1,15 @@
 // Kani harnesses for logic that lives inline in async fns of crates/erbium-core/src/dns/mod.rs, lifted verbatim
 // into synchronous fns by /verif/lib/lift.py on every run (C16: cost and limiter decision; C05: bucket indexing).
+// shims + lifted bodies compiled for the MIR dump used by the mirsym engine (C03: create_in_reply)
+#[cfg(any(kani, isomer_erbium_mir))]
+pub mod lifted {
+    #![allow(dead_code)]
+    use super::super::*;
+    // add_edns (NSID / server cookie = HMAC) only fills the reply's OPT options; abstracted to a no-op
+    pub fn add_edns_shim(_edns: &mut dnspkt::EdnsData, _msg: &DnsMessage) {}
+    include!(concat!(env!("VERIF_GEN_DIR"), "/create_in_reply.rs"));
+}
+
 #[cfg(kani)]
 mod k {
     use super::super::*;
